@@ -13,6 +13,9 @@ since the last `init_params`) with the operations `update` (`get_action`), `lear
 The gradient feature is an input: the network and autograd are not modelled (the harness computes
 it on the real network and checks the model's matrix against the real `sigma_inv`).
 
+Operations also include `init` (explicit `init_params`), `setLamb q` (`lamb` changed by an RL-hyper-parameter
+mutation or assignment; the matrix is the inverse for the `lamb` of its last initialisation, ghost `lamb0`)
+and `evaluate` (`agent.test(env)` / `set_training_mode`: no exemption — every later decision still counts).
 All theorems quantify over every `lamb > 0` (the constructor asserts it), every initial size and
 every finite sequence of operations; matrices have no size bound.  `Sem` selects the meaning of
 `lamb` at initialisation: `paper` (`sigma_inv₀ = I/lamb`, `Z₀ = lamb·I`: the property text) or
@@ -74,6 +77,18 @@ theorem C19_history_tracks_choices (a : Agent) (g : Vec) (n' : Nat) :
     (a.update g).hist = if a.accepts g then a.hist ++ [g] else a.hist := by
   refine ⟨rfl, rfl, by rw [Agent.clone_eq], by rw [Agent.reload_eq], ?_⟩
   unfold Agent.update; split <;> rfl
+
+/-- `lamb` is an ordinary attribute that may change during the agent's life (RL-hyper-parameter
+    mutation, assignment).  The λ of the property is the value at the *last initialisation* (ghost
+    `lamb0`, which `gram` uses): changing `lamb` alone touches neither the matrix nor `lamb0`; the next
+    `init_params` (explicit, mutation hook) starts from the *current* value, never from a cached one. -/
+theorem C19_lambda_read_at_initialisation (a : Agent) (q : Rat) (hq : 0 < q) (n' : Nat) :
+    (a.setLamb q).sigmaInv = a.sigmaInv ∧ (a.setLamb q).lamb0 = a.lamb0 ∧ (a.setLamb q).lamb = q ∧
+    ((a.setLamb q).initParams).sigmaInv = sigma0 a.sem q a.outNumel ∧
+    ((a.setLamb q).initParams).lamb0 = q ∧
+    ((a.setLamb q).mutate n').sigmaInv = sigma0 a.sem q n' ∧
+    a.evaluate = a := by
+  simp [Agent.setLamb, hq, Agent.initParams, Agent.mutate, Agent.setArch, Agent.evaluate]
 
 /-- with the `paper` semantics `Z₀` is literally `lamb × identity`, the matrix of the property text;
     `gram` is `Z₀` plus the outer products of the history, oldest first -/
@@ -368,6 +383,15 @@ example : demo.numel = 3 ∧ demo.hist = [[1, 1, 0], [0, 0, 2]] ∧ demo.checkIn
   decide +kernel
 /-- a 2-parameter agent loads the checkpoint of a 3-parameter one -/
 example : ((Agent.mk0 .code (1/2) 2).update [1, 1]).loadFrom demo = demo := by decide +kernel
+/-- λ changes from 2 to 1/2 after one decision; the hook then re-initialises with the new value, a fitness
+    evaluation changes nothing, and the next decision is absorbed: inverse of `(1/2)·I + g gᵀ` -/
+def demoLamb : Agent := (Agent.mk0 .paper 2 2).run
+  [.update [1, 1], .setLamb (1/2), .update [1, 0], .mutate 2, .evaluate, .update [0, 2]]
+example : demoLamb.lamb0 = 1/2 ∧ demoLamb.hist = [[0, 2]] ∧ demoLamb.gram = [[1/2, 0], [0, 9/2]] ∧
+    demoLamb.sigmaInv = [[2, 0], [0, 2/9]] ∧ demoLamb.checkInverse = true := by decide +kernel
+/-- between the change of λ and the next initialisation the matrix still belongs to the old λ -/
+example : ((Agent.mk0 .paper 2 1).run [.setLamb (1/2), .update [1]]).sigmaInv = [[1/3]] ∧
+    ((Agent.mk0 .paper 2 1).run [.setLamb (1/2), .init, .update [1]]).sigmaInv = [[2/3]] := by decide +kernel
 /-- a feature of the wrong length is rejected and changes nothing -/
 example : (Agent.mk0 .paper 1 2).update [1, 2, 3] = Agent.mk0 .paper 1 2 := by decide +kernel
 
